@@ -22,6 +22,11 @@ FAULT_CLASSES = {
     "RuntimeError": RuntimeError,
     "AttributeError": AttributeError,
     "OSError": OSError,
+    # exception types that generic "let this one through" clauses tend to single out
+    "RecursionError": RecursionError,
+    "AssertionError": AssertionError,
+    "LookupError": LookupError,
+    "NotImplementedError": NotImplementedError,
 }
 
 
@@ -36,6 +41,10 @@ class Log:
         self.calls = {}  # pid -> number of calls seen (for triggers)
         self.raised = []  # exception instances raised by the plan
         self.lock = threading.Lock()
+
+    def __deepcopy__(self, memo):
+        # the log is the monitor's state, not the program's: copies of a probed object report to the same log
+        return self
 
     def hit(self, kind, pid, info=None):
         if self.shadow:
